@@ -8,7 +8,7 @@ def paired_period(chk, data, max_hist):
     optimum of some call is tied are skipped (the implementation may legitimately break the tie differently)."""
     hists, runs, corr = data["hists"], data["runs"], data["corr"]
     cand = [k for k, h in enumerate(hists) if tc.tie_free(h, runs[k])]
-    cand = cand[:max_hist]
+    cand = [k for k in cand if not tc.is_visual(hists[k])][:max_hist] + [k for k in cand if tc.is_visual(hists[k])][:max(40, max_hist // 4)]
     variants = []
     for k in cand:
         for p in tc.PERIODS:
